@@ -1,10 +1,7 @@
 use std::fmt::{Result as FmtResult, Write as FmtWrite};
 
 use super::{Stringifier, Stringify};
-use crate::{
-    escape::gen_lit_str,
-    parse::expr::{ArrayFieldKind, Expression, ObjectFieldKind},
-};
+use crate::parse::expr::{ArrayFieldKind, Expression, ObjectFieldKind};
 
 #[repr(u8)]
 #[derive(Debug, Clone, Copy, PartialEq, PartialOrd, Eq, Ord)]
@@ -106,15 +103,36 @@ fn expression_strigify_write<'s, W: FmtWrite>(
             stringifier.write_token("null", None, location)?;
         }
         Expression::LitStr { value, location } => {
-            let quoted = gen_lit_str(&value);
-            stringifier.write_token(&format!(r#"{}"#, quoted), None, &location)?;
+            // (only the escape sequences the expression parser understands)
+            let mut quoted = String::with_capacity(value.len() + 2);
+            quoted.push('"');
+            for c in value.chars() {
+                match c {
+                    '"' => quoted.push_str("\\\""),
+                    '\\' => quoted.push_str("\\\\"),
+                    '\n' => quoted.push_str("\\n"),
+                    '\r' => quoted.push_str("\\r"),
+                    '\t' => quoted.push_str("\\t"),
+                    c if (c as u32) < 0x20 || (c as u32) == 0x7f => {
+                        write!(quoted, "\\x{:02x}", c as u32)?;
+                    }
+                    c => quoted.push(c),
+                }
+            }
+            quoted.push('"');
+            stringifier.write_token(&quoted, None, &location)?;
         }
         Expression::LitInt { value, location } => {
             let value = value.to_string();
             stringifier.write_token(&value, None, location)?;
         }
         Expression::LitFloat { value, location } => {
-            let value = value.to_string();
+            let value = if value.is_infinite() {
+                // (a literal beyond the float range)
+                "1e999".to_string()
+            } else {
+                value.to_string()
+            };
             stringifier.write_token(&value, None, location)?;
         }
         Expression::LitBool { value, location } => {
